@@ -227,9 +227,13 @@ S_<TN_, TA_, EmptyT<TA_>>::deepExit(PlanControl& HFSM2_IF_LOG_STATE_METHOD(contr
 template <typename TN_, typename TA_>
 HFSM2_CONSTEXPR(14)
 void
-S_<TN_, TA_, EmptyT<TA_>>::wrapPlanSucceeded(FullControl& HFSM2_IF_LOG_STATE_METHOD(control)) noexcept {
+S_<TN_, TA_, EmptyT<TA_>>::wrapPlanSucceeded(FullControl& control) noexcept {
 	HFSM2_LOG_STATE_METHOD(&Empty::planSucceeded,
 						   Method::PLAN_SUCCEEDED);
+
+	ScopedOrigin origin{control, STATE_ID};
+
+	control.succeed();
 }
 
 // - - - - - - - - - - - - - - - - - - - - - - - - - - - - - - - - - - - - - - -
@@ -237,9 +241,13 @@ S_<TN_, TA_, EmptyT<TA_>>::wrapPlanSucceeded(FullControl& HFSM2_IF_LOG_STATE_MET
 template <typename TN_, typename TA_>
 HFSM2_CONSTEXPR(14)
 void
-S_<TN_, TA_, EmptyT<TA_>>::wrapPlanFailed(FullControl& HFSM2_IF_LOG_STATE_METHOD(control)) noexcept {
+S_<TN_, TA_, EmptyT<TA_>>::wrapPlanFailed(FullControl& control) noexcept {
 	HFSM2_LOG_STATE_METHOD(&Empty::planFailed,
 						   Method::PLAN_FAILED);
+
+	ScopedOrigin origin{control, STATE_ID};
+
+	control.fail();
 }
 
 #endif
